@@ -193,8 +193,10 @@ def count_points(func, *args, **kwargs):
 def install_limiter():
     import adsg_core.optimization.graph_processor as gp
     import adsg_core.optimization.assign_enc.selector as sel
+    import adsg_core.optimization.assign_enc.time_limiter as tl
     gp.run_timeout = vlimiter
     sel.run_timeout = vlimiter
+    tl.run_timeout = vlimiter  # also covers callers that reach the limiter through the module attribute
 
 
 def reset(plan=None):
